@@ -898,7 +898,7 @@ def e2e_plan(ctx):
     """list of (program params, [(mode, opt, optset, live)])"""
     rng = ctx.rng
     plan = []
-    nprog = ctx.n(7, 36)
+    nprog = ctx.n(7, 30)
     per = ctx.n(9, 24)
     osets = [o for o in option_sets(ctx.scratch) if not o.startswith("args-") and not o.startswith("max-stack-")
              and o not in ("finish", "script-fp", "recover-rec")]
@@ -1146,7 +1146,7 @@ def run(ctx):
 
     # ---- (a) shadow-stack trees
     scases = []
-    n = ctx.n(130, 1200)
+    n = ctx.n(130, 1000)
     groups = {}
     for i in range(n):
         shape = SHAPES[i % len(SHAPES)]
